@@ -33,6 +33,21 @@ def term(c):
 def main(tier, seed, replay):
     ck = Check("C18", tier, seed)
     ck.coq_theorems()
+    # what the sidecar emits on the wire while keys rotate under open streams (protobuf data row records)
+    wire_replay = bool(replay) and '"multi"' in open(replay).read()[:3000]
+    if not replay or wire_replay:
+        wcases = envcheck.run_harness(ck, "srv", [["-replay", replay]] if replay else [["-seed", str(seed), "-n", "1", "-x", "wire"]])
+        if wcases is None:
+            return ck.finish()
+        wviol = [c for c in wcases if c.get("viol")]
+        ck.oblige(not wviol, "sidecar wire records across three key generations on open streams: documented shape, name a key valid at the time of the encrypt, "
+                  "decryptable from the record and the key table alone", json.dumps(wviol[:1])[:3000])
+        ck.cov["sidecar_wire_scenarios"] = len(wcases)
+        if wviol:
+            ck.violation(ck.replay_file("wire", {"what": wviol[0]["viol"][0], "Case": {"multi": wviol[0]["multi"]}, "all": wviol[0]["viol"][:6]}))
+        if wire_replay:
+            ck.cov.update({"evaluations": len(wcases), "distinct_nontrivial": len(wcases), "rule": "replay"})
+            return ck.finish()
     runs = [["-replay", replay]] if replay else [["-seed", str(seed), "-n", "640" if tier == "quick" else "6400"]]
     cases = envcheck.run_harness(ck, "fmt", runs)
     if cases is None:
